@@ -51,11 +51,36 @@ struct Shared {
     }
     ~Shared() { sim->m_node.validation_signals->UnregisterSharedValidationInterface(fwd); }
 
+    // every test spends a coin: the funded 2 BTC coins are split into 100 small ones each (the large ones wait at the back of the queue)
+    void NeedCoins()
+    {
+        NetSim& S = *sim;
+        if (S.coins.size() >= 30 && S.coins.front().out.nValue < COIN) return;
+        if (S.coins.empty() || S.coins.back().out.nValue < COIN) S.Fund(100);
+        auto sp = S.OnTip();
+        std::vector<CMutableTransaction> made;
+        for (int i = 0; i < 40 && !S.coins.empty() && S.coins.back().out.nValue > COIN; ++i) {
+            const SimCoin c = S.coins.back(); S.coins.pop_back();
+            CMutableTransaction m; m.version = 2;
+            m.vin.emplace_back(c.op, CScript(), MAX_BIP125_RBF_SEQUENCE);
+            for (int j = 0; j < 100; ++j) m.vout.emplace_back((c.out.nValue - 200000) / 100, S.wpkh);
+            S.SignWpkh(m, 0, c.out);
+            sp.txs.push_back(MakeTransactionRef(m));
+            made.push_back(m);
+        }
+        auto b = S.BuildBlock(sp);
+        if (!S.SubmitOwn(b) || S.Tip()->GetBlockHash() != b->GetHash()) throw std::runtime_error("split block not connected");
+        std::deque<SimCoin> small;
+        for (const auto& m : made) for (uint32_t j = 0; j < m.vout.size(); ++j) small.push_back(NetSim::OutputOf(m, j));
+        for (auto it = small.rbegin(); it != small.rend(); ++it) S.coins.push_front(*it);
+        S.Advance(std::chrono::seconds{1});
+    }
+
     // confirms 20 more P2WSH coins
     void FundWsh()
     {
         NetSim& S = *sim;
-        if (S.coins.size() < 10) S.Fund(100);
+        NeedCoins();
         const SimCoin c = S.TakeCoin();
         CMutableTransaction m; m.version = 2;
         m.vin.emplace_back(c.op, CScript(), MAX_BIP125_RBF_SEQUENCE);
@@ -115,7 +140,7 @@ struct World {
         S.Advance(std::chrono::seconds{1});
         SimCoin in;
         if (sh.haspar) {
-            if (S.coins.size() < 10) S.Fund(100);
+            sh.NeedCoins();
             const SimCoin c = S.TakeCoin();
             CMutableTransaction par; par.version = 2;
             par.vin.emplace_back(c.op, CScript(), MAX_BIP125_RBF_SEQUENCE);
